@@ -312,33 +312,64 @@ def main(argv):
             return 2
         modules = cfg["modules"] + ["CantoVerif.Driver." + scfg["driver"].capitalize()] + cfg.get("extra_modules", [])
         okb, bout, broken = lake_build(modules, clean=(tier == "thorough" and os.environ.get("VERIF_CLEAN", "0") == "1"))
-        theorems = cfg["theorems"]
-        axioms, aout = ({t: None for t in theorems}, "") if not okb else audit_axioms(theorems, cfg["modules"])
+        trig_pats = cfg.get("triggers", [])
+        trigger_thms = [t for t in cfg["theorems"] if any(re.search(p_, t) for p_ in trig_pats)]
+        theorems = [t for t in cfg["theorems"] if t not in trigger_thms]
+        # which errors concern this property: any error outside Bridge/ (model, proofs, property files), an error that
+        # cannot be attributed to a theorem, or an error inside a Bridge theorem that is one of the property's obligations
+        broken_thms, unrelated, triggers_hit = [], [], []
+        built_modules = list(cfg["modules"])
+        if not okb:
+            by_file = collections.defaultdict(list)
+            for f, ln, msg in broken:
+                by_file[f].append((ln, msg))
+            for f, errs in by_file.items():
+                path = os.path.join(LEAN, f) if not os.path.isabs(f) else f
+                spans = theorem_spans(path) if os.path.exists(path) else []
+                mod = f[:-5].replace("/", ".") if f.endswith(".lean") else f
+                built_modules = [m for m in built_modules if m != mod]
+                for ln, msg in errs:
+                    name = next((n for (n, a_, b_) in spans if a_ <= ln <= b_), None)
+                    is_bridge = "/Bridge/" in f or f.startswith("CantoVerif/Bridge/")
+                    mine = (not is_bridge) or name is None or any(t.endswith("." + name) for t in theorems + trigger_thms)
+                    if mine and is_bridge and name and any(re.search(p_, name) for p_ in trig_pats):
+                        # a search trigger, not an obligation: the text of a mirrored function changed
+                        triggers_hit.append((f, ln, name, msg))
+                    else:
+                        (broken_thms if mine else unrelated).append((f, ln, name or "?", msg))
+            if not broken and not broken_thms:
+                log("lake build failed without a located error:\n" + bout[-3000:])
+                broken_thms.append(("?", 0, "?", bout[-300:]))
+            # a Gen file that does not elaborate breaks every bridge that imports it
+            for f, ln, msg in broken:
+                if "/Gen/" in f and not any(b[0] == f for b in broken_thms):
+                    broken_thms.append((f, ln, "(generated file)", msg))
+        failed_modules = [m for m in cfg["modules"] if m not in built_modules]
+        broken_names = {b[2] for b in broken_thms}
+        # theorems living in a module that failed to build cannot be audited; they count as discharged only if no
+        # error was reported inside them (Lean elaborates every declaration of a file even after an error)
+        audit_thms = theorems if not failed_modules else [
+            t for t in theorems if not any(t.startswith(ns) for ns in cfg.get("bridge_namespaces", ["CV.Bridge."]))]
+        axioms, aout = audit_axioms(audit_thms, built_modules) if (okb or not [b for b in broken_thms if "/Bridge/" not in b[0]]) \
+            else ({t: None for t in theorems}, "")
+        for t in theorems:
+            if t not in axioms:
+                axioms[t] = None if any(t.endswith("." + n) for n in broken_names) else []
         grep_hits = grep_audit()
         checker = None
         if tier == "thorough" and okb:
             rc, cout = sh(["lake", "env", "leanchecker"] + cfg["modules"], cwd=LEAN, timeout=3600)
             checker = (rc == 0, cout[-500:])
+        for u in unrelated:
+            log(f"note: {u[0]}:{u[1]} theorem {u[2]} no longer checks; it is not an obligation of {pid}")
+        for u in triggers_hit:
+            log(f"note: {u[0]}:{u[1]} {u[2]}: the text of a mirrored function changed; widening the search")
 
-    # which obligations are broken
-    broken_thms = []
-    if not okb:
-        by_file = collections.defaultdict(list)
-        for f, ln, msg in broken:
-            by_file[f].append((ln, msg))
-        for f, errs in by_file.items():
-            path = os.path.join(LEAN, f) if not os.path.isabs(f) else f
-            spans = theorem_spans(path) if os.path.exists(path) else []
-            for ln, msg in errs:
-                name = next((n for (n, a_, b_) in spans if a_ <= ln <= b_), None)
-                broken_thms.append((f, ln, name or "?", msg))
-        if not broken_thms:
-            log("lake build failed without a located error:\n" + bout[-3000:])
-            broken_thms.append(("?", 0, "?", bout[-300:]))
     bad_axioms = {t: ax for t, ax in axioms.items() if ax is not None and not set(ax) <= P.ALLOWED_AXIOMS}
-    missing = [t for t, ax in axioms.items() if ax is None] if okb else []
+    missing = [t for t, ax in axioms.items() if ax is None] if not broken_thms else []
     obligations = len(theorems)
-    discharged = 0 if not okb else sum(1 for t, ax in axioms.items() if ax is not None and set(ax) <= P.ALLOWED_AXIOMS)
+    discharged = sum(1 for t, ax in axioms.items() if ax is not None and set(ax) <= P.ALLOWED_AXIOMS)
+    okb = okb or not broken_thms
 
     # ---- correspondence + monitors
     drv_ok = okb or os.path.exists(os.path.join(LEAN, ".lake", "build", "lib", "lean", "CantoVerif", "Driver"))
@@ -350,7 +381,7 @@ def main(argv):
     else:
         plan = [(seed, scfg["quick_ops"])]
     # a broken obligation triggers the search for a failing input: more seeds
-    if (not okb or bad_axioms or missing) and not replay and tier != "thorough":
+    if (not okb or bad_axioms or missing or triggers_hit) and not replay and tier != "thorough":
         plan += [(seed * 1000 + 100 + i, scfg["quick_ops"]) for i in range(6)]
     if drv_ok:
         # the driver needs its own modules built even when a property module is broken
@@ -468,6 +499,8 @@ def main(argv):
                           "cosmos-sdk bank/auth, baseapp branching: modelled, validated differentially"],
             obligations_list=[dict(theorem=t, axioms=ax) for t, ax in axioms.items()],
             leanchecker=(None if checker is None else dict(ok=checker[0], tail=checker[1])),
+            search_triggers=dict(count=len(trigger_thms), fired=sorted({u[2] for u in triggers_hit}),
+                                 meaning="regenerated statement-text facts of mirrored functions; a change widens the correspondence search, it is not an obligation"),
             evaluations=total_ops, distinct_nontrivial=len(distinct),
             rule="each operation is executed on the real application (message server under branch/recover/commit) and replayed on "
                  "the Lean model from the implementation's own pre-state; distinct = (model branch, accepted/rejected, magnitude "
